@@ -744,20 +744,31 @@ func serveWs(closed <-chan struct{}, w http.ResponseWriter, r *http.Request, con
 		log.WithFields(cf).Infof("new connection")
 
 		// cancel the connection when the token has expired or when session is curtailed
+		// or when the connection has ended for any other reason (done), so that neither this
+		// goroutine nor its timer outlives the connection
+		done := make(chan struct{})
+
 		go func() {
 
+			timer := time.NewTimer(time.Duration(ttl) * time.Second)
+			defer timer.Stop()
+
 			select {
-			case <-time.After(time.Duration(ttl) * time.Second):
+			case <-timer.C:
 				log.WithFields(cf).WithField("reason", "token expired").Info("connection closed")
 			case <-denied:
 				log.WithFields(cf).WithField("reason", "token denied").Info("connection closed")
+			case <-done:
 			}
 
 			close(cancelled)
 		}()
 
 		go client.writePump(closed, cancelled)
-		go client.readPump()
+		go func() {
+			client.readPump()
+			close(done)
+		}()
 		return
 	}
 
